@@ -582,6 +582,10 @@ def _preprocessor(res, case, w, seam, mp):
         o = cli.run(argv, mp=mp)
         res.n += 1
         pps = [c['args'] for c in seam.calls if c['name'] == 'pp']
+        leaked = [c['args'][-1] for c in seam.calls if c['name'] == 'pp' and (c['stdin'] or '') != '']
+        if leaked:
+            errs.append('%s: the preprocessor of %s was given the standard input of the exactly process itself (shared by all cases of the run): what it reads '
+                        'there is gone for the following cases' % (mode, leaked))
         marks = [c['args'][1] for c in seam.calls if c['name'] == 'mark']
         cases_ = ['c1.case', 'c2.case'] if single is None else [single]
         want_pp = [['pp', '-x', c] for c in cases_]
